@@ -158,6 +158,10 @@ type Raft struct {
 	// A channel used to respond to membership change requests.
 	configurationResponseCh chan Result[Configuration]
 
+	// The log index of the configuration that the pending membership change request,
+	// if there is one, is waiting for.
+	configurationResponseIndex uint64
+
 	// Maps ID to the state of the other nodes in the cluster.
 	// Maintained by the leader.
 	followers map[string]*follower
@@ -643,6 +647,10 @@ func (r *Raft) AddServer(
 	r.configuration = &configuration
 	r.followers[id] = &follower{nextIndex: 1}
 
+	// The future is populated once the configuration has been committed.
+	r.configurationResponseCh = configurationFuture.responseCh
+	r.configurationResponseIndex = configuration.Index
+
 	r.sendAppendEntriesToPeers()
 
 	r.logger.Debugf(
@@ -707,6 +715,10 @@ func (r *Raft) RemoveServer(id string, timeout time.Duration) Future[Configurati
 	// change may be started before - two changes that are based on the same configuration could
 	// otherwise result in configurations that do not have a voting member in common.
 	r.configuration = &configuration
+
+	// The future is populated once the configuration has been committed.
+	r.configurationResponseCh = configurationFuture.responseCh
+	r.configurationResponseIndex = configuration.Index
 
 	r.sendAppendEntriesToPeers()
 
@@ -1929,8 +1941,15 @@ func (r *Raft) applyLoop() {
 			switch entry.EntryType {
 			case NoOpEntry:
 			case ConfigurationEntry:
+				// Respond to the membership change request that is waiting for this configuration.
+				// This is done before the configuration is applied since this node steps down, and
+				// thereby cancels the request, if the configuration no longer contains it.
+				if r.configurationResponseCh != nil && entry.Index == r.configurationResponseIndex {
+					respond(r.configurationResponseCh, r.decodeConfiguration(entry.Data), nil)
+					r.configurationResponseCh = nil
+				}
+
 				r.applyConfiguration(entry.Data)
-				respond(r.configurationResponseCh, *r.configuration, nil)
 			case OperationEntry:
 				responseCh := r.operationManager.pendingReplicated[entry.Index]
 				delete(r.operationManager.pendingReplicated, entry.Index)
@@ -2113,6 +2132,7 @@ func (r *Raft) becomeFollower(leaderID string, term uint64) {
 	// Cancel any pending operations.
 	r.operationManager.notifyLostLeaderShip(r.id, r.leaderID)
 	r.operationManager = newOperationManager(r.options.leaseDuration)
+	r.cancelConfigurationRequest()
 
 	r.logger.Infof("entered the follower state: term = %d", r.currentTerm)
 }
@@ -2126,6 +2146,7 @@ func (r *Raft) stepdown() {
 	// Cancel any pending operations.
 	r.operationManager.notifyLostLeaderShip(r.id, r.leaderID)
 	r.operationManager = newOperationManager(r.options.leaseDuration)
+	r.cancelConfigurationRequest()
 
 	r.logger.Info("stepped down to the follower state")
 }
@@ -2149,6 +2170,16 @@ func (r *Raft) reserveStateMachine() bool {
 func (r *Raft) releaseStateMachine() {
 	r.snapshotting = false
 	r.applyCond.Broadcast()
+}
+
+// cancelConfigurationRequest responds to the pending membership change request, if there is
+// one, with an error that indicates that this node is no longer the leader. The configuration
+// may or may not be committed eventually.
+func (r *Raft) cancelConfigurationRequest() {
+	if r.configurationResponseCh != nil {
+		respond(r.configurationResponseCh, Configuration{}, ErrNotLeader)
+		r.configurationResponseCh = nil
+	}
 }
 
 // tryApplyReadOnlyOperations renews the lease and notifies the read-only
